@@ -35,6 +35,10 @@ def boot():
     want = os.path.realpath(os.path.join(REPO_SRC, "aioswitcher"))
     if got != want:
         raise HarnessError(f"aioswitcher imported from {got}, expected {want}")
+    import logging
+    lg = logging.getLogger("aioswitcher")
+    lg.addHandler(logging.NullHandler())
+    lg.propagate = False
     try:
         import hypothesis  # noqa
         import time_machine  # noqa
